@@ -106,7 +106,7 @@ def run(prop, tier, seed):
     sel = [h for h in cat if tier == 'thorough' or h['tier'] == 'quick']
     scratch = tempfile.mkdtemp(prefix='asca-verif-%s-' % prop)
     ev = dict(property_id=prop, tier=tier, seed=seed, level=cfg['level'], coverage={}, assumptions=[], wall_s=0.0, violations=0)
-    undecided, violations, known_hits, stale = [], [], [], []
+    undecided, violations, known_hits, stale, also_failed = [], [], [], [], []
     verus_results, kani_results = [], []
     try:
         # ---------------- Verus kernels
@@ -143,8 +143,10 @@ def run(prop, tier, seed):
                     r['meta'] = {k: h[k] for k in ('props', 'tier', 'kind', 'bound', 'form', 'twin', 'covers', 'pair', 'name', 'module', 'expect', 'clause', 'unwind')}
                     kani_results.append(r)
                 kani_results.sort(key=lambda r: r['harness'])
-                # failures: get a counterexample, replay natively
-                for r in kani_results:
+                # failures: get a counterexample, replay natively.  Cheapest failing harness first; once one
+                # counterexample is confirmed the remaining failing harnesses are listed, not replayed
+                confirmed_one = False
+                for r in sorted(kani_results, key=lambda x: x['seconds']):
                     h = r['meta']
                     if h['expect'] == 'fail':
                         if r['status'] != 'failed':
@@ -159,11 +161,15 @@ def run(prop, tier, seed):
                         continue
                     if r['status'] != 'failed':
                         continue
+                    if confirmed_one and not [k for k in known['findings'] if k['property'] == prop and k['obligation'] == h['name']]:
+                        r['replay'] = dict(confirmed=None, detail='not replayed: another counterexample of this run was already confirmed')
+                        also_failed.append(dict(obligation=h['name'], checks=[c['description'] for c in r['failed_checks'][:3]]))
+                        continue
                     target_h = [x for x in cat if x['full'] == r['harness']][0]
-                    if h['form'] == 'contract' and h['twin']:
+                    if h['twin']:   # replay through a cheaper twin (contract-form harnesses; wide harnesses whose traces are huge)
                         tw = [x for x in cat if x['name'] == h['twin']]
                         target_h = tw[0] if tw else target_h
-                    r2 = kani_run.run_harness(kdir, target, target_h['full'], max(target_h['timeout'] * 3, 900), target_h['mem'], playback=True)
+                    r2 = kani_run.run_harness(kdir, target, target_h['full'], max(target_h['timeout'] * 3, 900), max(target_h['mem'] * 2, 48), playback=True)  # the trace of a failing run needs far more memory than the proof
                     r['playback_run'] = dict(status=r2['status'], seconds=r2['seconds'], failed_checks=r2['failed_checks'])
                     if r2['status'] != 'failed' or 'playback_test' not in r2:
                         if h['form'] == 'contract':
@@ -185,6 +191,7 @@ def run(prop, tier, seed):
                     else:
                         kf = [k for k in known['findings'] if k['property'] == prop and k['obligation'] == target_h['name']
                               and all(any(re.search(pat, c['description']) for c in r2['failed_checks']) for pat in k.get('check_patterns', []))
+                              and all(any(re.search(pat, c.get('location', '')) for c in r2['failed_checks']) for pat in k.get('location_patterns', []))
                               and len(r2['failed_checks']) <= k.get('max_failed_checks', 10 ** 6)]
                         if kf:
                             known_hits.append((kf[0], entry))
@@ -192,6 +199,7 @@ def run(prop, tier, seed):
                             rp = os.path.join(VERIF, 'replay', '%s-%s.json' % (prop, target_h['name']))
                             write_json(rp, entry)
                             violations.append(dict(obligation=target_h['name'], replay=rp, note=what, with_input=True))
+                            confirmed_one = True
         # ---------------- Verus failures
         proved_cov = []
         for r in kani_results:
@@ -215,8 +223,9 @@ def run(prop, tier, seed):
                 if kf:
                     known_hits.append((kf[0], dict(obligation=ob, verus=fo)))
                     continue
-                # a Kani counterexample for the same function already reported?
-                if any(fnmatch.fnmatch(ob, g) for v in violations for r in kani_results if r.get('replay', {}).get('confirmed') for g in r['meta']['covers']):
+                # a replayed Kani counterexample was already reported for this run: list, do not multiply alarms
+                if any(v['with_input'] for v in violations):
+                    also_failed.append(dict(obligation=ob, checks=[fo['message']], backend='verus/z3'))
                     continue
                 rp = os.path.join(VERIF, 'replay', '%s-%s.json' % (prop, ob.replace('/', '_')))
                 write_json(rp, dict(property=prop, obligation=ob, backend='verus/z3', kernel=vr['kernel'], function=fo['function'],
@@ -229,7 +238,8 @@ def run(prop, tier, seed):
 
     # ---------------- evidence
     n_v_units = sum(r.get('verified', 0) for r in verus_results)
-    n_v_fail = sum(r.get('errors_excl_canary', 0) for r in verus_results if r['status'] == 'failed')
+    # failed verification units that matter for THIS property: untagged failures, or clauses tagged with it
+    n_v_fail = len(set((r['kernel'], f['function']) for r in verus_results if r['status'] == 'failed' for f in r.get('failed', []) if not f['props'] or prop in f['props']))
     p_h = [r for r in kani_results if r['meta']['kind'] == 'P' and r['meta']['expect'] != 'fail']
     b_h = [r for r in kani_results if r['meta']['kind'] == 'B']
     n_k_ok = sum(1 for r in p_h if r['status'] == 'proved')
@@ -261,7 +271,7 @@ def run(prop, tier, seed):
                                   covers_total=len(r.get('covers', [])), stubs=r.get('stubs', []), functions=r['meta']['pair'], clause=r['meta']['clause'],
                                   failed_checks=r['failed_checks'][:5], replay=r.get('replay')) for r in kani_results]),
         bounded=[dict(harness=r['harness'], bound=r['meta']['bound'], status=r['status'], note='bounded stand-in: NOT counted under obligations/discharged') for r in b_h],
-        proof_script_stale=stale, undecided=undecided,
+        proof_script_stale=stale, undecided=undecided, also_failed_not_replayed=also_failed,
         known_findings_hit=[dict(id=k['id'], obligation=k['obligation'], what=k['what'], note='fails exactly as recorded in known_findings.json; excluded from obligations/discharged') for k, _ in known_hits],
         not_decided_by_this_check=cfg.get('glue', []),
         explanation=cfg.get('explanation', ''),
@@ -282,6 +292,8 @@ def run(prop, tier, seed):
         for v in violations:
             print('VIOLATION property=%s replay=%s%s' % (prop, v['replay'], '' if v['with_input'] else ' no-failing-input-found'))
             print('  obligation=%s: %s' % (v['obligation'], v['note']))
+        for a in also_failed:
+            print('  also failing (not replayed): %s' % a['obligation'])
         return 1
     if undecided:
         for u in undecided:
